@@ -4,6 +4,7 @@ import Got.Lemmas.MSQueueValues
 import Got.Lemmas.MSQueueLin
 import Got.Lemmas.MSQueueLinSanity
 import Got.Lemmas.MSQueueErase
+import Got.Lemmas.MSQueueAst
 /-
 C01 — loom.Queue (Michael–Scott lock-free queue) is a linearizable FIFO under any interleaving of
 Push and Pop.
@@ -160,3 +161,62 @@ example :
       [.inv 0 (.push 7), .inv 1 (.push 9), .ret 0 .ack, .inv 0 .pop, .ret 0 (.val (some 9)), .ret 1 .ack] ∧
     Linearizable FifoSpec (history (run init demoRun).log) :=
   ⟨by decide, C01_linearizable demoRun⟩
+
+/-! ### the translated source (translator tie for concurrent code)
+
+`Got.Generated.AstLoomQueue.push` / `pop` are the per-thread programs that tools/srcfacts (minigo_atomic.go) re-translates
+from /repo/loom/queue.go on every run into the atomic-instruction IR of Got/Model/AtomicIR.lean (queueLoad/queueCas
+inlined after a shape check; `verifYield` is a no-op).  The generic small-step semantics of the IR turns them into a
+labelled transition system (`Got.Model.MSQueueGen`: `genInit`, `gstep`, `genRun`; one `tau t` = one shared access of
+thread `t` plus its local computation up to the next one).  The theorems below are about that *generated* LTS, so they
+are re-checked against what the code says now.  `concState s aux` (Got/Lemmas/MSQueueAst.lean) is the generated-LTS
+state that corresponds to the hand-written state `s`: same heap, and for each thread the continuation and locals that
+the mapping `conf` assigns to its hand-written program counter. -/
+
+/-- The translator accepted both methods: every construct of the current `Push`/`Pop` (and the shape of the helpers
+    `queueLoad`/`queueCas`) is inside the AtomicIR fragment; otherwise the generated body is empty and the note names
+    the construct. -/
+theorem C01_translation_in_fragment :
+    Got.Generated.AstLoomQueue.pushNote = "ok" ∧ Got.Generated.AstLoomQueue.popNote = "ok" := by decide
+
+/-- **Translator tie, one step.** The LTS generated from the source and the hand-written model take the same steps:
+    for every state `s` of the hand-written model (reachable or not), every client action `a` (invoke Push(v), invoke
+    Pop, `tau t`) maps the corresponding generated state to the generated state that corresponds to `step s a` — heap,
+    every thread's continuation and locals, and the client-visible history all coincide (no ghost component is
+    involved on the generated side). -/
+theorem C01_translated_source_step : ∀ (s : State) (aux : Nat → Nat) (a : Act),
+    Got.Model.MSQueueGen.gstep (Got.Lemmas.MSQueueAst.concState s aux) a =
+      Got.Lemmas.MSQueueAst.concState (step s a) (Got.Lemmas.MSQueueAst.auxStep s aux a) :=
+  Got.Lemmas.MSQueueAst.sim_step
+
+/-- hence every run: the client-visible history (invocations and responses with their values, in order) of the
+    generated LTS after any list of actions is exactly the history of the hand-written model. -/
+theorem C01_translated_source_history : ∀ acts : List Act,
+    Got.Model.MSQueueGen.genHistory (Got.Model.MSQueueGen.genRun acts) = history (run init acts).log :=
+  Got.Lemmas.MSQueueAst.genRun_hist
+
+/-- **C01 for the translated source.** Every history of the LTS generated from the current source of
+    `loom.Queue` — any number of goroutines, any client programs, any interleaving of their atomic steps — is
+    linearizable with respect to the sequential FIFO queue. -/
+theorem C01_translated_source_linearizable : ∀ acts : List Act,
+    Linearizable FifoSpec (Got.Model.MSQueueGen.genHistory (Got.Model.MSQueueGen.genRun acts)) := by
+  intro acts
+  rw [Got.Lemmas.MSQueueAst.genRun_hist]
+  exact C01_linearizable acts
+
+/-- the translated source never dereferences nil (`next.value` in Pop, `&tail.next`/`&head.next`) and the IR
+    semantics never gets stuck on it (no ill-typed operand, no statement with two accesses, local computation between
+    two accesses within the fuel). -/
+theorem C01_translated_source_safe : ∀ (acts : List Act) (t : Nat),
+    (Got.Model.MSQueueGen.genRun acts).conf t ≠ .crash ∧ (Got.Model.MSQueueGen.genRun acts).conf t ≠ .stuck := by
+  intro acts t
+  rw [Got.Lemmas.MSQueueAst.genRun_eq]
+  constructor
+  · intro h
+    exact C01_no_crash acts t ((Got.Lemmas.MSQueueAst.conf_crash_iff _ _).1 h)
+  · exact Got.Lemmas.MSQueueAst.conf_ne_stuck _ _
+
+/-- non-vacuity: the generated LTS really runs — `demoRun` (two overlapping Pushes with a failed link CAS and a helping
+    step, then a Pop) executed by the AtomicIR semantics on the translated source yields this history. -/
+example : Got.Model.MSQueueGen.genHistory (Got.Model.MSQueueGen.genRun demoRun) =
+      [.inv 0 (.push 7), .inv 1 (.push 9), .ret 0 .ack, .inv 0 .pop, .ret 0 (.val (some 9)), .ret 1 .ack] := by decide
